@@ -401,8 +401,11 @@ def check_argmin_scan(facts, path, measure="a5::core::origin::haversine", source
     (head, body), = loops.items()
     # the iterator
     nxt = [c for c in ft.calls() if c.block in body and c.callee and c.callee.endswith("::next")]
-    if len(nxt) != 1:
-        return False, "loop is not driven by a single Iterator::next - unrecognised idiom"
+    from ..query import loops_of as _lo
+    cl_ = [l for l in _lo(ft) if l.head == head and getattr(l, "counter", False)]
+    counter = cl_[0] if (not nxt and cl_) else None
+    if len(nxt) != 1 and counter is None:
+        return False, "loop is not driven by a single Iterator::next (or a counter stepping by one) - unrecognised idiom"
     # exits of the loop: only from the block that tests the iterator result
     exits = [(b, s) for b in body for s in cfg.succ[b] if s not in body]
     item_switch = None
@@ -412,12 +415,19 @@ def check_argmin_scan(facts, path, measure="a5::core::origin::haversine", source
             d = ft.switch_term(b)
             if d[0] == "discr" and d[1][0] == "call" and d[1][1].endswith("::next"):
                 item_switch = b
+    if counter is not None:
+        item_switch = counter.item_switch
     bad_exits = [(b, s) for b, s in exits if b != item_switch and ft.blocks[s]["term"]["k"] != "unreachable"]
     if item_switch is None or bad_exits:
         return False, "the scan can leave the loop early (exit edges %s): a nearer face later in the table would be missed" % bad_exits
     # the iterated collection is the whole face table
     src_terms = []
-    it = nxt[0].args[0]
+    it = nxt[0].args[0] if counter is None else counter.source
+    if counter is not None:
+        # `while i < table.len()` from 0: the whole table, each row once
+        if not (const_int(counter.source[3][0]) == 0 and any(x[0] == "call" and isinstance(x[1], str) and x[1].endswith("::len") for x in walk(counter.source[3][1]))):
+            return False, "the counter does not run from 0 to the length of the face table (%s)" % fmt(counter.source)[:80]
+        it = counter.source[3][1]
     seen = 0
     while seen < 12:
         seen += 1
@@ -457,7 +467,16 @@ def check_argmin_scan(facts, path, measure="a5::core::origin::haversine", source
     if x[2][0] != ("param", 1):
         return False, "distance is measured from %s, not from the query point" % fmt(x[2][0])
     item = x[2][1]
-    if not any(z[0] == "payload" and z[2][0] == "call" and z[2][1].endswith("::next") for z in walk(item)) or not any(z[0] == "field" and z[2] == "axis" for z in walk(item)):
+    def is_current(z):
+        if counter is None:
+            return z[0] == "payload" and z[2][0] == "call" and z[2][1].endswith("::next")
+        # row `counter` of the table
+        if z[0] == "index" and len(z) == 3:
+            return strip_site(z[2]) == strip_site(counter.item)
+        if z[0] == "call" and isinstance(z[1], str) and z[1].endswith("::index") and len(z[2]) == 2:
+            return strip_site(z[2][1]) == strip_site(counter.item)
+        return False
+    if not any(is_current(z) for z in walk(item)) or not any(z[0] == "field" and z[2] == "axis" for z in walk(item)):
         return False, "distance is not measured to the current face's axis: %s" % fmt(item)
     # running minimum: back-edge value = phi at the if-join of {x, old}
     min_ops = ft.phi_operands(y)
@@ -494,7 +513,7 @@ def check_argmin_scan(facts, path, measure="a5::core::origin::haversine", source
             joins.add(v[2])
     mj = {v[2] for v in upd if v[0] == "phi"}
     cur = {strip_site(z) for z in nv if z != strip_site(r)}
-    is_item = all(any(w[0] == "payload" for w in walk(z)) for z in cur) and len(cur) == 1
+    is_item = all(any(is_current(w) for w in walk(z)) for z in cur) and len(cur) == 1
     if not is_item or joins != mj:
         return False, "nearest face and running minimum are not updated together (face <- %s at joins %s, minimum at joins %s)" % (sorted(map(str, cur))[:1], sorted(joins), sorted(mj))
     return True, "scans every element of get_origins() (only exit: iterator exhausted), compares haversine(point, face.axis) %s running minimum (init +inf), updates minimum and face at the same join" % ("<" if op in ("Lt", "Gt") else "<=")
